@@ -126,7 +126,7 @@ def small_cfg() -> S.FullCfg:
 TWEAKS = [
     "float_id", "huge_id", "neg_id", "enum_str", "enum_float", "enum_ident", "enum_list", "empty_enum", "unknown_param",
     "unit_noarg", "unit_two", "range_one", "range_int", "range_str", "unit_int", "arr_neg", "arr_float", "arr_zero",
-    "arr_huge", "svc_float_id", "method_neg_id", "bad_version", "width_0", "width_99", "dup_param", "enum_neg",
+    "arr_huge", "arr_inf", "id_inf", "enum_inf", "range_inf", "svc_float_id", "method_neg_id", "bad_version", "width_0", "width_99", "dup_param", "enum_neg",
     "mod_missing", "mod_garbage", "mod_eof", "mod_dir",
 ]
 
@@ -158,7 +158,7 @@ def tweaked(draw) -> Tuple[Dict[str, str], List[str]]:
         elif tw.startswith("enum_") and enums and enums[k % len(enums)].items:
             e = enums[k % len(enums)]
             v = {"enum_str": "text", "enum_float": 1.5, "enum_ident": M.Ident("Foo"), "enum_list": [1, 2],
-                 "enum_neg": -4}[tw]
+                 "enum_neg": -4, "enum_inf": M.Num("-1e999", float("-inf"))}[tw]
             e.items[(k // 3) % len(e.items)] = (e.items[(k // 3) % len(e.items)][0], v)
         elif tw == "empty_enum":
             if enums:
@@ -178,10 +178,19 @@ def tweaked(draw) -> Tuple[Dict[str, str], List[str]]:
                 "dup_param": [["unit", "(", '"a"', ")"], ["unit", "(", '"b"', ")"]],
             }[tw]
             f.raw_params = (f.raw_params or []) + raw
-        elif f and tw in ("arr_neg", "arr_float", "arr_zero", "arr_huge"):
+        elif f and tw in ("arr_neg", "arr_float", "arr_zero", "arr_huge", "arr_inf"):
             n = {"arr_neg": M.Num("-1", -1), "arr_float": M.Num("1.5", 1.5), "arr_zero": 0,
-                 "arr_huge": M.Num(str(10**30), 10**30)}[tw]
-            f.type = M.Arr(M.U(8), n)
+                 "arr_huge": M.Num(str(10**30), 10**30),
+                 "arr_inf": M.Num(["1e999", "-1e309", "2E+400"][k % 3], float("inf"))}[tw]
+            inner = [M.U(8), M.F32(), M.Str(), M.Arr(M.U(8), 2), M.Opt(M.U(8))][(k // 5) % 5] if tw == "arr_inf" else M.U(8)
+            f.type = M.Arr(inner, n)
+        elif f and tw == "id_inf":
+            f.fid = M.Num("1e999", float("inf"))
+        elif tw == "enum_inf" and enums and enums[k % len(enums)].items:
+            e = enums[k % len(enums)]
+            e.items[0] = (e.items[0][0], M.Num("-1e999", float("-inf")))
+        elif f and tw == "range_inf":
+            f.raw_params = (f.raw_params or []) + [["range", "(", "1e999", ",", "-1e999", ")"]]
         elif f and tw == "width_0":
             f.type = M.U(0)
         elif f and tw == "width_99":
